@@ -46,7 +46,7 @@ CLAIMS.update({
              "tree_line_eval over the scanner model codeLex, which is compared token for token with the implementation's lexer on generated and hostile "
              "lines under 4 separator conventions); k..Y suffixes and the rest by enumeration: tree evaluated with doubles in tree order must "
              "equal the implementation bit-for-bit. Eight arithmetic defects found this way were repaired in /repo.",
-        note="Trusted: Lean kernel + 3 standard axioms; regex layer / lexer glue not modelled (exercised by every generated line); model tied by line-level correspondence on the implementation's own lexed tokens (values, raw tokens).",
+        note="Trusted: Lean kernel + 3 standard axioms; tokenizers modelled (SC/Lexer.lean over regexes regenerated from config.json) and tied to the code token for token on every line of the run, not verified; model tied by line-level correspondence on the implementation's own lexed tokens (values, raw tokens).",
         ref="§7 C02"),
     "C05": dict(
         technique="Lean 4 theorems over exact rationals for all seven phrases (numbers and money) + pattern-level theorems against the regenerated rule patterns + differential oracle",
@@ -54,7 +54,7 @@ CLAIMS.update({
              "A is p% of what, each also for money keeping the currency; token level: the rule patterns REGENERATED from config.json match the "
              "phrases' token sequences and bind the fields the rule functions read (phrase_* theorems re-checked by the kernel on every run). "
              "Implementation compared with the exact formula (rel 1e-9) and bit-for-bit with the Float model.",
-        note="Trusted: Lean kernel + 3 axioms; floating-point rounding modelled not verified; percent lexer glue exercised by generated lines only.",
+        note="Trusted: Lean kernel + 3 axioms; floating-point rounding modelled not verified; tokenizers modelled (SC/Lexer.lean over regexes regenerated from config.json) and tied to the code token for token on every line of the run, not verified.",
         ref="§7 C05"),
     "C06": dict(
         technique="Lean 4 theorems over exact rationals (conversion, money arithmetic), history theorem for update_currency over all update sequences, kernel-decided data obligations on the regenerated rate/alias tables + exhaustive pair enumeration",
@@ -63,7 +63,7 @@ CLAIMS.update({
              "last value written for it (by any name denoting it) else the configured one, false return iff unknown name and then no change; data "
              "obligations by `decide` over the tables regenerated from config.json (every rate names a currency, aliases resolve, no zero rate). "
              "Implementation: all 1024 ordered pairs exhaustively + spellings + arithmetic + update histories against the exact table.",
-        note="Trusted: Lean kernel + 3 axioms; translator (cross-checks serde_json's reading of each rate); money regexes exercised not modelled.",
+        note="Trusted: Lean kernel + 3 axioms; translator (cross-checks serde_json's reading of each rate); tokenizers modelled (SC/Lexer.lean over regexes regenerated from config.json) and tied to the code token for token on every line of the run, not verified.",
         ref="§7 C06"),
     "C03": dict(
         technique="Lean 4 theorems about the session map, the interpreter's assignment/use semantics, the frame of failing lines and the leftmost-then-longest name substitution + differential programs against an environment simulated outside the implementation",
@@ -75,7 +75,7 @@ CLAIMS.update({
              "longest name (pickBest_spec). The whole-pipeline refinement to the abstract environment is decided on generated programs: Python "
              "environment simulation (doubles in tree order, bit-exact) + standalone values for non-number kinds. Two substitution/key defects "
              "found were repaired in /repo.",
-        note="Trusted: Lean kernel + 3 axioms; text lexing not modelled; end-to-end refinement (abs session = Env) is checked on generated programs, not proved.",
+        note="Trusted: Lean kernel + 3 axioms; tokenizers modelled (SC/Lexer.lean over regexes regenerated from config.json) and tied to the code token for token on every line of the run, not verified; end-to-end refinement (abs session = Env) is checked on generated programs, not proved.",
         ref="§7 C03"),
     "C07": dict(
         technique="Lean 4 proofs about the digit-string pipeline of format_number (correct rounding half-even of the exact value, digits read back, grouping shape, fraction rule) + exact-decimal oracle over the configuration space",
@@ -110,7 +110,7 @@ CLAIMS.update({
              "units strictly descending, each part maximal (greedy_sum, greedy_counts_pos, greedy_descending, greedy_leading, greedy_zero), 'as' floors "
              "(as_floor); data: every configured pattern has >= 2 tokens. Implementation output is parsed back into (count, word) parts and compared "
              "with the integer spec incl. singular/plural.",
-        note="Trusted: Lean kernel + 3 axioms; number/word lexing exercised not modelled; plural word choice checked by the oracle, not a theorem.",
+        note="Trusted: Lean kernel + 3 axioms; tokenizers modelled (SC/Lexer.lean over regexes regenerated from config.json) and tied to the code token for token on every line of the run, not verified; plural word choice checked by the oracle, not a theorem.",
         ref="§7 C10"),
     "C11": dict(
         technique="Lean 4 integer proofs modulo 86400 over all instants/offsets/durations + data obligation on the regenerated zone table + differential oracle over zone pairs (thorough: all ordered pairs)",
@@ -119,7 +119,7 @@ CLAIMS.update({
              "(add_duration, sub_duration), T1 to T2 is the symmetric absolute difference (to_abs, to_symmetric), printing shows `shown` "
              "(print_fields); data: all configured offsets within +-14h (zone_offsets_in_range, re-decided after regeneration). A zone-table key "
              "defect (ChST) found by the pair enumeration was repaired in /repo.",
-        note="Trusted: Lean kernel + 3 axioms; time/zone lexer glue and set_timezone are regex code outside the model (exercised); process TZ=UTC.",
+        note="Trusted: Lean kernel + 3 axioms; time / zone tokenizers modelled (SC/Lexer.lean over regexes regenerated from config.json) and tied to the code token for token on every line of the run, not verified; set_timezone exercised; process TZ=UTC.",
         ref="§7 C11"),
     "C13": dict(
         technique="Lean 4 proof of the digit round trip for every natural number and base 2..16, rounding lemma, base-keeping arithmetic + differential round trips up to 2^70 / 1e25",
@@ -128,7 +128,7 @@ CLAIMS.update({
              "zero (convert_rounds, round_half_away), arithmetic keeps the left base (arithmetic_keeps_base). Implementation: 2^k-1/2^k/2^k+1 up to "
              "2^70, 64-bit random, 10^e up to 1e25, fractions around .5, 4x4 bases, printed literal fed back. Three defects repaired in /repo "
              "(32-bit saturation, overflow panic, hex-vs-currency ambiguity).",
-        note="Trusted: Lean kernel + 3 axioms; values are doubles (integers above 2^53 are the nearest double); radix lexer glue exercised.",
+        note="Trusted: Lean kernel + 3 axioms; values are doubles (integers above 2^53 are the nearest double); radix tokenizers modelled (SC/Lexer.lean over regexes regenerated from config.json) and tied to the code token for token on every line of the run, not verified.",
         ref="§7 C13"),
 })
 
@@ -165,7 +165,7 @@ CLAIMS.update({
              "finding C09-G1), month subtraction across January does not borrow a year (sub_months_borrow_witness, C09-G2), an intermediate 29 Feb "
              "(C09-G3) - the first two are pinned by the repository's tests execute_21..23, 26 and stay open known findings; the check recognises them "
              "only when the implementation returns exactly what the defect predicts.",
-        note="Trusted: Lean kernel + 3 axioms; chrono's NaiveDate = proleptic Gregorian calendar (model validated on every generated date); month-name/number lexing exercised not modelled; one defect repaired in /repo (Turkish month spellings).",
+        note="Trusted: Lean kernel + 3 axioms; chrono's NaiveDate = proleptic Gregorian calendar (model validated on every generated date); tokenizers modelled (SC/Lexer.lean over regexes regenerated from config.json) and tied to the code token for token on every line of the run, not verified; one defect repaired in /repo (Turkish month spellings).",
         ref="§7 C09"),
 })
 
@@ -195,8 +195,8 @@ CLAIMS.update({
              "collision test accepted nested spans (old_collision_witness). Tie: every collection's operation log emitted by the implementation "
              "(hook verif_ui) is replayed on the model; final tokens and every byte->character translation must agree. 'Numbers, operators and comments "
              "have their own kind over exactly their characters' is decided by enumeration of structured lines with multi-byte words (string level, "
-             "regexes not modelled). Three defects repaired in /repo (byte/char mixing, case-mapped copies, month name inside a comment).",
-        note="Trusted: Lean kernel + 3 axioms; the hook log is complete (all mutations of the collection go through the four logged operations); which spans the regexes report is outside the model.",
+             "regexes modelled and tied, not verified). Three defects repaired in /repo (byte/char mixing, case-mapped copies, month name inside a comment).",
+        note="Trusted: Lean kernel + 3 axioms; the hook log is complete (all mutations of the collection go through the four logged operations); which spans the tokenizers request is given by the lexer model, whose requests are compared with the implementation's operation log.",
         ref="§7 C17"),
 })
 
@@ -214,7 +214,7 @@ CLAIMS.update({
              "variant (month / zone lookup on case-mapped copies, comment and blank recognition) is string level and decided by the metamorphic "
              "run: blanks x comments from a hostile pool x four case patterns of every keyword class x all value kinds, values compared exactly; "
              "blank / comment-only lines give an empty slot. One defect repaired in /repo (month name inside a comment).",
-        note="Trusted: Lean kernel + 3 axioms; regex layer not modelled; case of unit / duration / day words and base names is not demanded and left unchanged by the generator.",
+        note="Trusted: Lean kernel + 3 axioms; tokenizers modelled (SC/Lexer.lean over regexes regenerated from config.json) and tied to the code token for token on every line of the run, not verified; case of unit / duration / day words and base names is not demanded and left unchanged by the generator.",
         ref="§7 C16"),
 })
 
@@ -250,7 +250,7 @@ CLAIMS.update({
              "language's rule functions are en's (rules_subset). Parity itself is decided on the implementation: word-by-word translations en->tr of "
              "operator-word arithmetic, durations, dates (every month spelling), date arithmetic and day keywords give identical values; tr output "
              "uses only tr month names / unit words; word-free lines give identical values and outputs. One defect repaired in /repo (month spellings).",
-        note="Trusted: Lean kernel + 3 axioms; alias / keyword / month lexing is regex code outside the model (exercised); features a language configures no words for are not demanded.",
+        note="Trusted: Lean kernel + 3 axioms; alias / keyword / month tokenizers modelled (SC/Lexer.lean over regexes regenerated from config.json) and tied to the code token for token on every line of the run, not verified; features a language configures no words for are not demanded.",
         ref="§7 C19"),
 })
 
@@ -267,7 +267,7 @@ CLAIMS.update({
              "to one token of its kind is string level: decided by entering the printed form of generated values of all eight kinds under 6-40 "
              "separator / digit configurations in en and tr. PARTIAL: two open findings (C15-J1 12 months, C15-J2 SEK prints `kr` which reads as DKK - "
              "a conflict inside config.json); one defect repaired in /repo (sign of a value that rounds to zero).",
-        note="Trusted: Lean kernel + 3 axioms; lexer regexes not modelled; date-times are not among the property's kinds; readable currencies = those config.json gives the reader an alias or symbol for.",
+        note="Trusted: Lean kernel + 3 axioms; tokenizers modelled (SC/Lexer.lean over regexes regenerated from config.json) and tied to the code token for token on every line of the run, not verified; date-times are not among the property's kinds; readable currencies = those config.json gives the reader an alias or symbol for.",
         ref="§7 C15"),
 })
 
